@@ -48,6 +48,7 @@ theorem isFirstChild_hilbert (id n : Nat) (h1 : 1 ≤ n) (h28 : n ≤ 28) :
   simp only [isFirstChild, Gen.MAX_RESOLUTION]
   rewrite [if_neg (by omega), i32Sub_ok _ _ (by omega)]
   simp only [Outcome.bind_ok]
+  rewrite [if_neg (by omega)]
   have e : (2 * (30 - (1 + (n : Int))).toNat) % 2 ^ 32 = 58 - 2 * n := by omega
   rewrite [e]
   have hle : 2 ^ (58 - 2 * n) ≤ 2 ^ 56 := Nat.pow_le_pow_right (by omega) (by omega)
@@ -66,6 +67,7 @@ theorem getStride_hilbert (n : Nat) (h1 : 1 ≤ n) (h28 : n ≤ 28) :
   simp only [getStride, Gen.MAX_RESOLUTION]
   rewrite [if_neg (by omega), i32Sub_ok _ _ (by omega)]
   simp only [Outcome.bind_ok]
+  rewrite [if_neg (by omega)]
   have e : (2 * (30 - (1 + (n : Int))).toNat) % 2 ^ 32 = 58 - 2 * n := by omega
   rewrite [e]
   have hle : 2 ^ (58 - 2 * n) ≤ 2 ^ 56 := Nat.pow_le_pow_right (by omega) (by omega)
